@@ -224,8 +224,8 @@ func (g *gctx) numAtoms(w wty, lo, hi *big.Int) []ex {
 	}
 	for _, s := range g.p.consts {
 		if s.t.kind == kNum {
-			// a scalar const is an ideal constant: usable at any type it fits
-			if s.t.hi.Cmp(w.max()) <= 0 && s.t.lo.Cmp(lo) >= 0 && s.t.hi.Cmp(hi) <= 0 {
+			// a scalar const is a typed constant (ConstValue set, not ideal)
+			if s.t.w == w && s.t.lo.Cmp(lo) >= 0 && s.t.hi.Cmp(hi) <= 0 {
 				out = append(out, ex{s: s.expr, b: rng(s.t.lo, s.t.hi), konst: true})
 			}
 		} else {
@@ -263,6 +263,20 @@ func (g *gctx) atomOrConst(w wty) ex {
 		return as[g.r.Intn(len(as))]
 	}
 	return g.constEx(bi(0), w.max())
+}
+
+// nonConst: some non-constant expression of type w (c0 is always declared).
+func (g *gctx) nonConst(w wty) ex {
+	if as := g.simpleAtoms(w); len(as) > 0 {
+		return as[g.r.Intn(len(as))]
+	}
+	switch w.bits {
+	case 32:
+		return ex{s: "c0", b: rng(bi(0), w.max())}
+	case 64:
+		return ex{s: "(c0 as base.u64)", b: rng(bi(0), wtys[2].max())}
+	}
+	return ex{s: fmt.Sprintf("((c0 & %s) as %s)", w.max(), w.src()), b: rng(bi(0), w.max())}
 }
 
 // simpleAtoms: scalar (non-indexed, non-const) atoms of exactly type w.
@@ -560,7 +574,7 @@ func (g *gctx) genNum(w wty, d int, lo, hi *big.Int) ex {
 			}
 		case 25: // unary plus
 			a := g.genNum(w, d-1, lo, hi)
-			if !a.konst {
+			if !a.konst && g.r.Intn(3) == 0 {
 				e, ok = ex{s: "(+" + a.s + ")", b: a.b}, true
 				g.count("op:unary+")
 			}
@@ -704,7 +718,7 @@ func (g *gctx) genBool(d int) string {
 			b = g.genNum(w, d-1, bi(0), w.max())
 		}
 		if a.konst && b.konst {
-			a = g.atomOrConst(w)
+			a = g.nonConst(w)
 		}
 		g.count("cmp:" + op)
 		return "(" + a.s + " " + op + " " + b.s + ")"
@@ -784,6 +798,20 @@ func (g *gctx) genStmts(lv int, n int, out *[]string) {
 
 func (g *gctx) genStmt(lv int, out *[]string) {
 	g.budget--
+	for try := 0; try < 4; try++ {
+		if g.genStmt1(lv, out) {
+			return
+		}
+	}
+	// fallback: a modular op-assign, always valid
+	if tgt, t, ok := g.target(); ok && !t.refined {
+		e := g.genNum(t.w, 1, bi(0), t.w.max())
+		*out = append(*out, ind(lv)+tgt+" ~mod+= "+e.s)
+		g.count("opassign:~mod+=:" + t.w.name)
+	}
+}
+
+func (g *gctx) genStmt1(lv int, out *[]string) bool {
 	emit := func(s string) { *out = append(*out, ind(lv)+s) }
 	d := 1 + g.r.Intn(3)
 	choice := g.r.Intn(20)
@@ -796,13 +824,13 @@ func (g *gctx) genStmt(lv int, out *[]string) {
 			e := g.genNum(t.w, d, t.lo, t.hi)
 			emit(tgt + " = " + e.s)
 			g.count("stmt:assign")
-			return
+			return true
 		}
 	case 4: // bool assignment
 		if ws := g.writableBool(); len(ws) > 0 {
 			emit(ws[g.r.Intn(len(ws))].expr + " = " + g.genBool(d))
 			g.count("stmt:assign-bool")
-			return
+			return true
 		}
 	case 5, 6, 7: // always-accepted op-assign
 		if tgt, t, ok := g.target(); ok && !t.refined {
@@ -818,7 +846,7 @@ func (g *gctx) genStmt(lv int, out *[]string) {
 			}
 			emit(tgt + " " + op + " " + e.s)
 			g.count("opassign:" + op + ":" + t.w.name)
-			return
+			return true
 		}
 	case 8, 9: // guarded checked op-assign: if v < K { v += e }
 		ws := g.writableNum()
@@ -865,7 +893,7 @@ func (g *gctx) genStmt(lv int, out *[]string) {
 				emit("}")
 				g.count("opassign:<<=:" + w.name)
 			}
-			return
+			return true
 		}
 	case 10: // fact-based subtraction: if a >= b { t = a - b }
 		w := wtys[g.r.Intn(4)]
@@ -877,7 +905,7 @@ func (g *gctx) genStmt(lv int, out *[]string) {
 				*out = append(*out, ind(lv+1)+fmt.Sprintf("%s = %s - %s", tgt, a.s, b.s))
 				emit("}")
 				g.count("stmt:fact-sub")
-				return
+				return true
 			}
 		}
 	case 11: // call statement
@@ -898,12 +926,12 @@ func (g *gctx) genStmt(lv int, out *[]string) {
 				if len(cands) > 0 {
 					emit(cands[g.r.Intn(len(cands))].expr + " = " + c)
 					g.count("stmt:call-assign")
-					return
+					return true
 				}
 			} else {
 				emit(c)
 				g.count("stmt:call")
-				return
+				return true
 			}
 		}
 	case 12, 13: // if / else if / else
@@ -919,11 +947,11 @@ func (g *gctx) genStmt(lv int, out *[]string) {
 		}
 		emit("}")
 		g.count("stmt:if")
-		return
+		return true
 	case 14, 15: // counted while loop
 		if g.nloop < 3 && len(g.loops) < 3 {
 			g.genWhile(lv, out)
-			return
+			return true
 		}
 	case 16: // "while true { … break }" (lowered to do { } while (0) when it has no continue)
 		if len(g.loops) < 3 {
@@ -945,12 +973,12 @@ func (g *gctx) genStmt(lv int, out *[]string) {
 			emit("}" + dot)
 			g.count("stmt:while-true")
 			g.m.hasLoop = true
-			return
+			return true
 		}
 	case 17: // jump
 		if len(g.loops) > 0 {
 			g.genJump(lv, out)
-			return
+			return true
 		}
 	case 18: // early return
 		if g.r.Intn(2) == 0 {
@@ -958,15 +986,10 @@ func (g *gctx) genStmt(lv int, out *[]string) {
 			*out = append(*out, ind(lv+1)+g.retStmt(d))
 			emit("}")
 			g.count("stmt:early-return")
-			return
+			return true
 		}
 	}
-	// fallback: a modular op-assign on a local, always valid
-	if tgt, t, ok := g.target(); ok && !t.refined {
-		e := g.genNum(t.w, 1, bi(0), t.w.max())
-		emit(tgt + " ~mod+= " + e.s)
-		g.count("opassign:~mod+=:" + t.w.name)
-	}
+	return false
 }
 
 // genNumNoRef is genNum that must not mention the variable `avoid` (the
@@ -1136,7 +1159,12 @@ func genProgram(r *hlib.Rand, sname string) *program {
 			m.impure = true
 			m.out = nil
 		case !m.impure || r.Intn(4) != 0:
-			t := g.randType(!m.pub || true)
+			t := g.randType(true)
+			for m.pub && t.kind == kBool {
+				// cgen cannot emit the disabled-object return value of a public
+				// method returning bool ("cannot write the zero value of type base.bool")
+				t = g.randType(true)
+			}
 			m.out = &t
 		}
 		// locals
@@ -1173,7 +1201,29 @@ func genProgram(r *hlib.Rand, sname string) *program {
 		g.nloop = 0
 		g.budget = 6 + r.Intn(14)
 		var body []string
+		// seed some locals from arguments / fields / constants, so that
+		// interesting values flow through the body
+		for _, l := range m.locals {
+			if l.writable && l.t.kind == kNum && r.Intn(2) == 0 {
+				body = append(body, ind(1)+l.expr+" = "+g.genNum(l.t.w, 2, l.t.lo, l.t.hi).s)
+			}
+		}
 		g.genStmts(1, 2+r.Intn(7), &body)
+		if m.impure {
+			// make the work observable: store into fields
+			for _, f := range p.fields {
+				if r.Intn(2) == 0 {
+					switch f.t.kind {
+					case kNum:
+						body = append(body, ind(1)+f.expr+" = "+g.genNum(f.t.w, 2, f.t.lo, f.t.hi).s)
+					case kBool:
+						body = append(body, ind(1)+f.expr+" = "+g.genBool(2))
+					case kArr:
+						body = append(body, ind(1)+f.expr+"["+g.indexExpr(f.t.n)+"] = "+g.genNum(f.t.w, 2, f.t.lo, f.t.hi).s)
+					}
+				}
+			}
+		}
 		if m.out != nil || r.Bool() {
 			body = append(body, ind(1)+g.retStmt(2))
 		}
@@ -1240,7 +1290,7 @@ func (p *program) render() string {
 // disables the object).
 func genHistory(r *hlib.Rand, p *program) []call {
 	g := &gctx{r: r, p: p, m: &method{}}
-	n := 2 + r.Intn(6)
+	n := 3 + r.Intn(8)
 	var h []call
 	for i := 0; i < n; i++ {
 		m := p.methods[r.Intn(len(p.methods))]
